@@ -121,6 +121,21 @@ def sharing_shapes():
         out.append(("concat-unread-%d" % i, ("index", ("bin", "+", ("arr", [b]), ("arr", [N(1)])), N(1))))
         out.append(("comprehension-unread-%d" % i, ("index", ("arrcomp", ("if", ("bin", "==", V("x"), N(0)), b, V("x")), [("for", "x", ("arr", [N(0), N(1)]))]), N(1))))
         out.append(("makeArray-unread-%d" % i, ("index", prog.STD("makeArray", N(2), ("fn", [("i", None)], ("if", ("bin", "==", V("i"), N(0)), b, V("i")))), N(1))))
+        # elements / fields handed to library callbacks that do not use them
+        one = ("fn", [("x", None)], N(1))
+        yes = ("fn", [("x", None)], ("lit", "true"))
+        out.append(("map-unused-elem-%d" % i, prog.STD("map", one, ("arr", [b, N(1)]))))
+        out.append(("mapWithIndex-unused-elem-%d" % i, prog.STD("mapWithIndex", ("fn", [("i", None), ("x", None)], V("i")), ("arr", [b]))))
+        out.append(("foldl-unused-elem-%d" % i, prog.STD("foldl", ("fn", [("a", None), ("x", None)], ("bin", "+", V("a"), N(1))), ("arr", [b, b]), N(0))))
+        out.append(("foldr-unused-elem-%d" % i, prog.STD("foldr", ("fn", [("x", None), ("a", None)], ("bin", "+", V("a"), N(1))), ("arr", [b, b]), N(0))))
+        out.append(("flatMap-unused-elem-%d" % i, prog.STD("length", prog.STD("flatMap", ("fn", [("x", None)], ("arr", [b, N(1)])), ("arr", [b, N(2)])))))
+        out.append(("filterMap-unused-elem-%d" % i, prog.STD("filterMap", yes, one, ("arr", [b]))))
+        out.append(("filter-unused-elem-%d" % i, prog.STD("length", prog.STD("filter", yes, ("arr", [b])))))
+        out.append(("mapWithKey-unused-value-%d" % i, prog.STD("mapWithKey", ("fn", [("k", None), ("v", None)], V("k")), ("obj", [F("a", b)]))))
+        out.append(("mapWithKey-unread-field-%d" % i, IDX(prog.STD("mapWithKey", ("fn", [("k", None), ("v", None)], V("v")), ("obj", [F("a", b), F("b", N(1))])), "b")))
+        out.append(("objectValues-unread-%d" % i, ("index", prog.STD("objectValues", ("obj", [F("a", b), F("b", N(1))])), N(1))))
+        out.append(("get-unused-default-%d" % i, prog.STD("get", ("obj", [F("a", N(1))]), S("a"), b)))
+        out.append(("mergePatch-unread-field-%d" % i, IDX(prog.STD("mergePatch", ("obj", [F("a", b), F("b", N(1))]), ("obj", [F("c", N(2))])), "b")))
         out.append(("tailstrict-forces-%d" % i, ("apply", ("fn", [("a", None), ("b", None)], V("a")), [N(1), b], [], True)))
     return out
 
